@@ -636,7 +636,7 @@ Qed.
 Theorem step_cs : forall s o, cs_inv s ->
   cs_inv (fst (step s o)) /\ cache_of (fst (step s o)) = cache_step (cache_of s) (admitting s) o (snd (step s o)).
 Proof.
-  intros s o I. destruct o as [d|c|n w f|n cbp mbf|face n cbp mbf nonce life sent|n w f tok| | |u]; simpl.
+  intros s o I. destruct o as [d|c|n w f|n cbp mbf|face n cbp mbf nonce life sent|n w f tok| | |u|sid sn]; simpl.
   - split; [|reflexivity]. destruct I. split; assumption.
   - split; [|reflexivity]. destruct I. split; assumption.
   - apply insert_data_inv. exact I.
@@ -648,6 +648,9 @@ Proof.
   - pose proof (fr_dnl_sweep s (ci_tree s I)) as F. split; [eapply frame_inv; eassumption|apply frame_cache; exact F].
   - unfold mgmt_cap, c_mgmtcap. change (c_cap (cache_of s)) with (cap s). destruct (max_int <? u)%N; [split; [exact I|reflexivity]|].
     split; [|reflexivity]. destruct I. split; assumption.
+  - unfold stale_remove. destruct (mem_N sid (tokmap s)); [split; [exact I|reflexivity]|].
+    pose proof (fr_remove_interest s (mkpit sid sn false false [] [] 0 false false) (ci_tree s I)) as F.
+    split; [eapply frame_inv; eassumption|apply frame_cache; exact F].
 Qed.
 
 Lemma init_tree_ok : tree_ok [mknode [] [] None].
